@@ -143,7 +143,7 @@ Print stale.
             len(rows), ", ".join("%s:%s=%s" % (r["file"].split("/")[-1], r["func"], r["class"]) for r in rows), missing, stale))
 
     # ---- 2. operation histories on the real Dict / listings / hash() against model and specification
-    hist = ctx.jsonl([hx, "ops", "-seed", str(ctx.seed), "-n", "50" if quick else "500"])
+    hist = ctx.jsonl([hx, "ops", "-seed", str(ctx.seed), "-n", "80" if quick else "1500"])
     cases = ["([%s], [%s])" % ("; ".join(render_op(o) for o in h["ops"]), "; ".join(render_ev(e) for e in h["obs"])) for h in hist]
     nops = sum(len(h["ops"]) for h in hist)
     ctx.log("evaluating %d histories (%d operations) in Coq" % (len(cases), nops))
@@ -175,7 +175,7 @@ Definition firsts := Eval vm_compute in map (fun c : list op * list event => fir
         ctx.broken("correspondence:C03.Model", "model and implementation differ on %d histories where the specification is met, e.g. %s" % (len(only_model), json.dumps(hist[only_model[0]])[:600]))
 
     # ---- 3. generated programs: processes x repetitions x goroutines
-    n, k, g = (120, 3, 4) if quick else (5000, 8, 8)
+    n, k, g = (600, 4, 4) if quick else (12000, 8, 8)
     res = ctx.jsonl([hx, "run", "-seed", str(ctx.seed), "-n", str(n), "-k", str(k), "-g", str(g)], timeout=3000)
     summ = [d for d in res if d["kind"] == "summary"][0]
     for d in res:
